@@ -62,8 +62,14 @@ fn item_of(r: &RawImport, own_path: Option<&str>) -> Item {
     }
     2 => ["npm:pkg@1", "npm:other@^2/sub", "npm:pkg@^1.2"][idx(r.a, 3)].to_string(),
     3 => format!(
-      "{REGISTRY}{}/{}{}",
+      "{REGISTRY}{}/{}{}{}",
       NAMES[idx(r.a, NAMES.len())],
+      // now and then a spelling of the version that is not the directory name
+      match r.attr {
+        5 => "v",
+        6 => "=",
+        _ => "",
+      },
       VERSIONS[idx(r.b, VERSIONS.len())],
       PATHS[idx(r.c, PATHS.len())]
     ),
@@ -235,7 +241,11 @@ fn nv_of_url(u: &Url) -> Option<(String, String)> {
   if !scope.starts_with('@') {
     return None;
   }
-  deno_semver::Version::parse_standard(version).ok()?;
+  // the directory of a version is named by the version as it prints
+  let parsed = deno_semver::Version::parse_standard(version).ok()?;
+  if parsed.to_string() != version {
+    return None;
+  }
   Some((format!("{scope}/{name}"), version.to_string()))
 }
 
